@@ -10,7 +10,7 @@ from sa.model import contains, enclosing, is_user_func_call, node_classes
 from sa.qualifiers import INNER, OUTER, NameSpaces
 from sa.variants import Variant, replace_once, sub_first, sub_once
 
-from .common import call_names, must_reach_in_iteration
+from .common import call_names, must_reach_in_iteration, wrapper_param
 
 ID = "C06"
 EXPLANATION = (
@@ -136,6 +136,7 @@ def run(ctx) -> None:
 
     # ---- R6 ---------------------------------------------------------------------
     check_qualifiers(ctx, "C06.R6")
+    check_emit_names_current(ctx, "C06.R3")
 
     # ---- R9: the node cache addresses arguments by the function's own parameter names --------------------------
     # definition_hash ignores renames and the identity carries no input wiring, so two differently wired clones of one
@@ -295,6 +296,43 @@ def check_batch_isolation(ctx, rule: str, funcs) -> None:
 
 
 
+def check_emit_names_current(ctx, rule: str) -> None:
+    """The names under which ordering signals are written at run time are the node's *current* output names: every loop
+    that stores the emit sentinel iterates (a slice of) ``<node>.outputs`` — the attribute with_outputs rewrites — or a
+    property computed from it, never a construction-time attribute that renames leave untouched."""
+    db, rep = ctx.db, ctx.rep
+    n_w = 0
+    node_classes = [ci for ci in db.classes.values() if ci.module.name.startswith("hypergraph.nodes")]
+    for f in db.all_funcs():
+        for n in walk_local(f.node):
+            if not (isinstance(n, ast.Assign) and isinstance(n.value, ast.Name) and n.value.id == "_EMIT_SENTINEL" and any(isinstance(t, ast.Subscript) for t in n.targets)):
+                continue
+            lp = next((a for a in ancestors(n) if isinstance(a, ast.For)), None)
+            if lp is None:
+                continue
+            n_w += 1
+            e = lp.iter
+            if isinstance(e, ast.Name):
+                ds = [d for d in db.local_defs(f).get(e.id, []) if getattr(d, "value", None) is not None]
+                if len(ds) == 1:
+                    e = ds[0].value
+
+            def current(x: ast.AST, depth: int = 0) -> bool:
+                if any(isinstance(y, ast.Attribute) and y.attr == "outputs" for y in ast.walk(x)):
+                    return True
+                attrs = [y.attr for y in ast.walk(x) if isinstance(y, ast.Attribute)]
+                if depth < 2 and attrs:
+                    props = [m for ci in node_classes for nm, m in ci.methods.items() if nm in attrs and m.is_property]
+                    if props:
+                        return all(any(isinstance(r, ast.Return) and r.value is not None and current(r.value, depth + 1) for r in walk_local(m.node)) for m in props)
+                return False
+
+            ok = current(e)
+            rep.add(rule, f"{f.qname}:emit-names-from-current-outputs", ok, f"{f.module.rel}:{lp.lineno}", "signals are written under the node's current output names" if ok else f"the emit sentinel is stored under names taken from '{src(lp.iter)[:50]}', which with_outputs does not rewrite: a renamed signal is still produced under its old name (its waiter never runs; in a swap with a data output the value is overwritten)")
+    if n_w < 2:
+        raise AnalysisError(f"only {n_w} emit writers found")
+
+
 def check_qualifiers(ctx, rule: str, only: tuple[str, ...] | None = None) -> None:
     """Name-space discipline (C06.R6); ``only`` restricts to sites whose qualified name contains one of the fragments."""
     db, rep = ctx.db, ctx.rep
@@ -305,7 +343,7 @@ def check_qualifiers(ctx, rule: str, only: tuple[str, ...] | None = None) -> Non
         f = db.maybe_func(q)
         if f is None:
             raise AnalysisError(f"name-space site vanished: {q}")
-        sites.append((f, w, seeds, kseeds, rv))
+        sites.append((f, wrapper_param(f, w), seeds, kseeds, rv))
     for m in gn.methods.values():
         seeds = {p: q for p, q in GN_PARAM_SEEDS.items() if p in m.param_names}
         sites.append((m, "self", seeds, GN_KEY_SEEDS.get(m.name, {}), set()))
@@ -328,7 +366,7 @@ def check_executor_returns(ctx, rule: str) -> None:
     # boundary: what the executors hand back must be in the wrapper's space
     for q in ("runners.sync.executors.graph_node.SyncGraphNodeExecutor.__call__", "runners.async_.executors.graph_node.AsyncGraphNodeExecutor.__call__", "runners.async_.executors.graph_node.AsyncGraphNodeExecutor._handle_nested_result"):
         f = db.func(q)
-        ns = _with_key_seeds(db, f, "node", {}, {"inputs": OUTER}, {"result"})
+        ns = _with_key_seeds(db, f, wrapper_param(f), {}, {"inputs": OUTER}, {"result"})
         for r in [n for n in walk_local(f.node) if isinstance(n, ast.Return) and n.value is not None]:
             v = r.value
             if isinstance(v, ast.Call) and isinstance(v.func, ast.Attribute) and v.func.attr == "_handle_nested_result":
